@@ -7,13 +7,13 @@ from ..core.report import AnalysisError
 from ..frontend.pyfront import Repo
 
 LEVEL = 'other'
-TECHNIQUE = 'abstract interpretation of the 8 potential functions (mode loops unrolled, both use_static values); symbolic differentiation of the extracted potential; Laplace identity, modal/non-modal agreement and Taylor-coefficient agreement of sibling implementations decided by polynomial identity testing with trigonometric atoms'
+TECHNIQUE = 'abstract interpretation of the 8 potential functions (mode loops unrolled, both use_static values); symbolic differentiation of the extracted potential; Laplace identity, modal/non-modal agreement and Taylor-coefficient agreement of sibling implementations decided by polynomial identity testing with trigonometric atoms; a second interpretation with array inputs (arrays are mutable cells: aliasing and in-place updates are followed) and the limit values e = 0, obliquity = 0 passed as exact numbers'
 LEVEL_TEXT = ('Each returned tuple is extracted symbolically for every mode; derivative consistency and the degree-2 surface Laplace identity are decided exactly for all angles, times, n, spin, e, '
               'obliquity; sibling agreement is decided on exact Taylor coefficients (pinned evaluation of symbolic partial derivatives).')
 LEVEL_NOTE = ('Trusted: front-end, interpreter, differentiation rules, real algebra. sqrt(1-cos^2 t) is sin t on the declared domain (0, pi) (sample points are drawn with sin t positive). '
               'The frequency switch (|mode| > threshold) is evaluated as "non-zero frequency" on the generic region and as 0 where the mode frequency is identically zero.')
 EXPLANATION = ('R14.1 returned first/second derivatives == symbolic partial derivatives of the returned potential, per mode; R14.2 Laplace identity per mode; '
-               'R14.3 per-mode variants summed == non-modal counterpart, frequency/mode tables agree with the mode names; R14.4 limits between siblings; R14.5 the same consistency on the own spin-orbit resonance (mode frequency zero, static switch active).')
+               'R14.3 per-mode variants summed == non-modal counterpart, frequency/mode tables agree with the mode names; R14.4 limits between siblings; R14.5 the same consistency on the own spin-orbit resonance (mode frequency zero, static switch active). R14.6 with array inputs and with e = 0 / obliquity = 0 passed as numbers, every field of every mode equals the generic formula at that value (special cases on exact zeros, buffers shared between modes).')
 
 FILES = {
     'sync_low_e': 'synchronous_low_e', 'nsr_noobl': 'nsr_med_eccen_no_obliquity', 'nsr_modes_noobl': 'nsr_modes_med_eccen_no_obliquity',
